@@ -144,7 +144,6 @@ def long_history(b, sym):
         b.require(sorted(got) == sorted(summary[rec.path]), "formats-ever-recorded", "%s: %s vs %s" % (rec.path, sorted(got), sorted(summary[rec.path])))
         for f, e in got.items():
             b.require(truth(e.digest == summary[rec.path][f][0]), "earliest-non-failed-digest", "%s %s" % (rec.path, f))
-            b.require(e.action == summary[rec.path][f][1], "earliest-entry-action", "%s %s: %s, the earliest entry was %s" % (rec.path, f, e.action, summary[rec.path][f][1]))
     r = b.run("verify", root="R", pl=pls[0])
     b.require(r.exit == 0 and r.exc is None, "verify-pl-unchanged-0", "after %d generations: %s | %s" % (n, r, (r.out + r.err)[-3:]))
     b.alter("R/late.txt", 88)
